@@ -47,7 +47,7 @@ RULE = (
     "the shared ill-typed / annotated-program generators (10 % each). Non-trivial = the generated part has >= 8 "
     "distinct AST node types and the check produced >= 1 diagnostic or the part has >= 40 nodes; distinct by "
     "AST-node-type multiset of the generated part. CLI: ~20 generated files per shard through `python -m pyanalyze`, "
-    "a CLI regression list, and one constant-folding termination probe under RLIMIT_CPU. Value-API case = one call of "
+    "a CLI regression list, and 7 constant-evaluation termination probes (power, shift, sequence repetition, doubling chain, in-place power, pure builtin / method on literals) under RLIMIT_CPU / RLIMIT_AS. Value-API case = one call of "
     "can_assign/is_assignable/can_overlap(3 modes)/unite_values/==/substitute_typevars/str/repr/hash/simplify on "
     "values of a pool (vp.valuegen core + random; all ordered pairs, sampled triples, deeper random values) or "
     "type_from_runtime (string / object, with and without allow_unpack) / type_from_ast on an annotation (every form "
@@ -68,10 +68,10 @@ ASSUMPTIONS = [
 FLOORS = {
     "quick": {"distinct_nontrivial": 4500, "programs_checked": 3400, "program_checks": 10000, "diagnostics_checked": 450000,
               "contract_evaluations": 1000000, "value_api_calls": 800000, "cli_runs": 160, "annotation_conversions": 15000,
-              "regression_programs": 20, "sweep_programs": 420, "termination_probes": 1, "cli_regression_programs": 2},
+              "regression_programs": 20, "sweep_programs": 420, "termination_probes": 7, "cli_regression_programs": 2},
     "thorough": {"distinct_nontrivial": 15000, "programs_checked": 20000, "program_checks": 60000, "diagnostics_checked": 2500000,
                  "contract_evaluations": 5000000, "value_api_calls": 3000000, "cli_runs": 320, "annotation_conversions": 60000,
-                 "regression_programs": 20, "sweep_programs": 420, "termination_probes": 1, "cli_regression_programs": 2},
+                 "regression_programs": 20, "sweep_programs": 420, "termination_probes": 7, "cli_regression_programs": 2},
 }
 NSHARDS = 16
 WATCHDOG_S = {"quick": 1500, "thorough": 7200}
@@ -297,14 +297,32 @@ def internal_error_key(failure, node_type: str):
     frames = frames_of_text(desc)
     where, fileline = _frame_key(frames, exc)
     node = "-" if exc == "RecursionError" else visited_node(frames, desc[m.start():], node_type)
-    return f"internal_error|{exc}|{where}|{node}", fileline
+    return f"internal_error|{exc}|{where}{validator_rule(exc, desc[m.start():])}|{node}", fileline
+
+
+def validator_rule(exc: str, message: str) -> str:
+    """Signature.validate() is one frame for many rules: the rule that fired (parameter kinds abstracted from names)
+    is the mechanism."""
+    if exc != "InvalidSignature":
+        return ""
+    m = re.search(r"of kind (\w+) may not follow param of\s+kind ([\w, ]+?) \{", message)
+    if m:
+        return f"[{m.group(1)}-after-{'/'.join(sorted(m.group(2).split(', ')))}]"
+    if "may not have a default" in message:
+        m = re.search(r"of kind (\w+) may not have a default", message)
+        return f"[{m.group(1) if m else '?'}-with-default]"
+    if "has no default but follows" in message:
+        return "[no-default-after-default]"
+    if "do not match" in message:
+        return "[names-do-not-match]"
+    return "[other]"
 
 
 def escaped_key(exc: BaseException):
     frames = frames_of_exc(exc)
     where, fileline = _frame_key(frames, type(exc).__name__)
     node = "-" if isinstance(exc, RecursionError) else visited_node(frames, str(exc), "?")
-    return f"escaped|{type(exc).__name__}|{where}|{node}", fileline
+    return f"escaped|{type(exc).__name__}|{where}{validator_rule(type(exc).__name__, str(exc))}|{node}", fileline
 
 
 def last_line(desc: str) -> str:
@@ -785,6 +803,13 @@ def _ends_with_traceback(err: str) -> bool:
 # of the process, not wall-clock) and RLIMIT_AS; a normal check of such a 3-line file needs < 2 CPU-seconds.
 TERMINATION_PROBES = [
     ("literal-power", "def f():\n    x = 1000 ** 1000\n    y = x ** x\n    return y\n"),
+    ("literal-shift", "def f():\n    x = 10 ** 12\n    y = 1 << x\n    return y\n"),
+    ("literal-sequence-repeat", "def f():\n    n = 10 ** 11\n    return 'ab' * n, [0] * n, n * (1, 2)\n"),
+    ("literal-doubling-chain", "def f():\n    s = 'x' * 1000\n" + "".join("    s = s + s\n" for _ in range(40)) + "    return s\n"),
+    ("literal-inplace-power", "def f():\n    x = 1000 ** 1000\n    x **= x\n    return x\n"),
+    # evaluated through Signature._maybe_perform_call (any pure callable on literal arguments), not through the operators
+    ("pure-callable-on-literals", "def f():\n    x = 1000 ** 1000\n    return pow(x, x)\n"),
+    ("pure-method-on-literals", "def f():\n    n = 10 ** 11\n    return 'a'.ljust(n)\n"),
 ]
 PROBE_CPU_S = 20
 PROBE_AS_BYTES = 3 << 29  # 1.5 GiB
@@ -899,7 +924,7 @@ def wraps_unhashable(spec) -> bool:
 def value_key(op: str, exc: BaseException, specs) -> tuple:
     where, fileline = _frame_key(frames_of_exc(exc), type(exc).__name__)
     user = any(os.sep + "vp" + os.sep in fs.filename for fs in traceback.extract_tb(exc.__traceback__)[-1:])
-    key = f"value-api|{type(exc).__name__}|{where}" + ("|raised-by-wrapped-object's-own-method" if user else "")
+    key = f"value-api|{type(exc).__name__}|{where}{validator_rule(type(exc).__name__, str(exc))}" + ("|raised-by-wrapped-object's-own-method" if user else "")
     return key, fileline
 
 
